@@ -2614,7 +2614,20 @@ def sup8(ctx):
     errs = {i for i, t in b.calls() if "from_residual" in (callee_path(t) or "")}
     reach = cfg.reachable_from(0, avoid=S | errs)
     bad = sorted(x for x in reach if x in rets)
-    r.inst("apply_seg_mods: every non-error return passes the call of apply_supras", fn_loc(b), "ok" if not bad else "report")
+    if bad:
+        # an early exit is fine when its guard establishes that there is no suprasegmental at all: it tests length, stress
+        # and tone (or the SupraSegs value as a whole)
+        guards = []
+        for x in hirq.walk(b.hir["body"]):
+            if x["e"] == "if" and any(y["e"] == "ret" and not y.get("exp") for y in hirq.walk(x["then"])) \
+                    and not any(y["e"] == "mcall" and (y.get("def") or "").endswith("Syllable::apply_supras") for y in hirq.walk(x["then"])):
+                flds = {y["name"] for y in hirq.walk(x["cond"]) if y["e"] == "field" and (y.get("of_ty") or "").lstrip("&").endswith("asca::parser::SupraSegs")}
+                whole = any(y["e"] == "field" and y.get("name") == "suprs" and (y.get("ty") or "").endswith("SupraSegs") and not any(
+                    z["e"] == "field" and hirq.strip(z["a"]) is y for z in hirq.walk(x["cond"])) for y in hirq.walk(x["cond"]))
+                guards.append({"length", "stress", "tone"} <= flds or whole)
+        if guards and all(guards):
+            bad = []
+    r.inst("apply_seg_mods: every non-error return passes the call of apply_supras (or sits behind a test of length, stress and tone together)", fn_loc(b), "ok" if not bad else "report")
     if bad:
         r.report("SUP-8|apply_seg_mods|return-without-supras", fn_loc(b), b.path,
                  "Syllable::apply_seg_mods can return without calling apply_supras: a matrix whose only suprasegmental is the one the early exit does not test (e.g. `[tone: 5]` when only length and stress are tested) is silently not applied to a segment -- `V > [tone:5]` does nothing")
